@@ -162,13 +162,18 @@ class ServerConfig:
         """Get access control configuration.
 
         Returns:
-            AccessControlConfig instance if enabled and lists are configured,
-            None otherwise.
+            AccessControlConfig instance if enabled and lists (or a default
+            policy of deny) are configured, None otherwise.
         """
         if not self.enable_access_control:
             return None
 
-        if not (self.access_control_allow_list or self.access_control_deny_list):
+        # Without any list there is nothing to enforce - unless the default
+        # policy is "deny", which must still refuse everybody
+        if (
+            not (self.access_control_allow_list or self.access_control_deny_list)
+            and self.access_control_default_allow
+        ):
             return None
 
         return AccessControlConfig(
